@@ -103,26 +103,26 @@ var valueMethodReq = map[string]KindSet{
 	"Field":       ks(kStruct),
 	"Slice":       ks(kArray, kSlice, kString),
 	// valid receiver required ("panics if v is the zero Value")
-	"Type":            ksValid,
-	"CanInterface":    ksValid, // "panics if v is the zero Value" (flag == 0)
-	"Interface":       ksValid,
-	"Convert":         ksValid,
-	"CanConvert":      ksValid,
-	"Set":             ksValid,
-	"Addr":            ksValid,
-	"IsZero":          ksValid,
-	"Comparable":      ksValid,
-	"Equal":           ksAll,
-	"FieldByName":     ks(kStruct),
-	"NumMethod":       ksAll,
-	"OverflowInt":     ksSigned,
-	"OverflowUint":    ksUnsigned,
-	"OverflowFloat":   ksFloat,
-	"UnsafePointer":   ks(kChan, kFunc, kMap, kPtr, kSlice, kUnsafePointer),
-	"Pointer":         ks(kChan, kFunc, kMap, kPtr, kSlice, kUnsafePointer),
-	"Recv":            ks(kChan),
-	"Send":            ks(kChan),
-	"Call":            ks(kFunc),
+	"Type":          ksValid,
+	"CanInterface":  ksValid, // "panics if v is the zero Value" (flag == 0)
+	"Interface":     ksValid,
+	"Convert":       ksValid,
+	"CanConvert":    ksValid,
+	"Set":           ksValid,
+	"Addr":          ksValid,
+	"IsZero":        ksValid,
+	"Comparable":    ksValid,
+	"Equal":         ksAll,
+	"FieldByName":   ks(kStruct),
+	"NumMethod":     ksAll,
+	"OverflowInt":   ksSigned,
+	"OverflowUint":  ksUnsigned,
+	"OverflowFloat": ksFloat,
+	"UnsafePointer": ks(kChan, kFunc, kMap, kPtr, kSlice, kUnsafePointer),
+	"Pointer":       ks(kChan, kFunc, kMap, kPtr, kSlice, kUnsafePointer),
+	"Recv":          ks(kChan),
+	"Send":          ks(kChan),
+	"Call":          ks(kFunc),
 }
 
 // reflect.Value methods that never panic on any receiver.
@@ -149,7 +149,9 @@ var typeMethodSafe = map[string]bool{"Kind": true, "String": true, "Name": true,
 var reflectFuncTypeReq = map[string]KindSet{
 	"MakeSlice": ks(kSlice),
 	"MakeMap":   ks(kMap),
-	"MakeChan":  ks(kChan),
+	// the size is a hint: any int, negative included, is accepted by the runtime
+	"MakeMapWithSize": ks(kMap),
+	"MakeChan":        ks(kChan),
 }
 
 var reflectFuncSafe = map[string]bool{"ValueOf": true, "TypeOf": true, "Indirect": true, "SliceOf": true, "PtrTo": true, "PointerTo": true, "Zero": false, "New": true, "DeepEqual": true}
